@@ -208,4 +208,54 @@ theorem strip_append_zero [DecidableEq K] (p : List K) :
   | nil => simp [Poly.stripLeadingZeros]
   | cons c cs ih => simp only [List.cons_append, Poly.stripLeadingZeros, ih]
 
+/-! ### Cauchy's root bound -/
+
+theorem absP_eq (x : K) : Poly.absP x = |x| := by
+  simp only [Poly.absP]; push_cast
+  split
+  · rename_i h; rw [abs_of_neg h]
+  · rename_i h; rw [abs_of_nonneg (not_lt.mp h)]
+
+theorem maxP_eq (x y : K) : Poly.maxP x y = max x y := by
+  simp only [Poly.maxP]
+  split
+  · rename_i h; rw [max_eq_right h.le]
+  · rename_i h; rw [max_eq_left (not_lt.mp h)]
+
+theorem foldl_max_ge (g : K → K) (cs : List K) (init : K) :
+    init ≤ cs.foldl (fun acc x => Poly.maxP acc (g x)) init ∧
+      ∀ c ∈ cs, g c ≤ cs.foldl (fun acc x => Poly.maxP acc (g x)) init := by
+  induction cs generalizing init with
+  | nil => simp
+  | cons c cs ih =>
+    simp only [List.foldl_cons]
+    obtain ⟨h1, h2⟩ := ih (Poly.maxP init (g c))
+    rw [maxP_eq] at h1 ⊢
+    refine ⟨(le_max_left _ _).trans h1, ?_⟩
+    intro d hd
+    rcases List.mem_cons.mp hd with rfl | hd
+    · exact (le_max_right _ _).trans h1
+    · rw [maxP_eq] at h2; exact h2 d hd
+
+/-- Horner chain: if every non-leading coefficient is at most `M·|a|` in modulus and `|r| ≥ 1 + M`
+then `|p(r)| ≥ |a|`. -/
+theorem eval_ge_lead (cs : List K) (a r M : K) (hM : 0 ≤ M) (hc : ∀ c ∈ cs, |c| ≤ M * |a|)
+    (hr : 1 + M ≤ |r|) : |a| ≤ |Poly.evalSpec r (cs ++ [a])| := by
+  induction cs with
+  | nil => simp
+  | cons c cs ih =>
+    have ih' := ih (fun d hd => hc d (List.mem_cons_of_mem _ hd))
+    have hcc := hc c List.mem_cons_self
+    simp only [List.cons_append, Poly.evalSpec_cons]
+    set E := Poly.evalSpec r (cs ++ [a])
+    have h1 : |r * E| = |r| * |E| := abs_mul r E
+    have h2 : |r * E| - |c| ≤ |c + r * E| := by
+      have := abs_sub_abs_le_abs_sub (r * E) (-c)
+      rw [abs_neg, sub_neg_eq_add, add_comm] at this
+      exact this
+    have h3 : (1 + M) * |a| ≤ |r| * |E| :=
+      mul_le_mul hr ih' (abs_nonneg a) (by linarith [abs_nonneg r])
+    nlinarith [abs_nonneg a]
+
+
 end M3d.Num
